@@ -422,14 +422,16 @@ func postC09(c *checker) {
 // whose fork point from the best chain is not deeper than that. (Both Clean and Load keep at least
 // this much in memory; what lies below may or may not be kept.)
 func retainedNode(w *hdr.World, tip, n *ref.Node) bool {
-	if w.MinDepth == 0 {
+	if !w.Pruned {
 		return true
 	}
 	f := ref.ForkPoint(tip, n)
 	if f == nil {
 		return false
 	}
-	return f.Height >= tip.Height-w.MinDepth
+	// the floor is taken at the time of each prune (best height then - depth): the best chain can
+	// later become shorter (a heavier but shorter branch), which does not bring anything back
+	return f.Height >= w.PruneFloor
 }
 
 func errorsCause(err error) error { return errors.Cause(err) }
@@ -550,6 +552,9 @@ var oracleC11 = oracle{
 				hdr.Safe(func() error { best = c.w.Repo.Height(); return nil })
 				if parent != nil && best-parent.Height > c.w.Cfg.MaxBranchDepth {
 					return
+				}
+				if tip := c.w.Tree.Get(hdr.RH(st.PreTip)); parent != nil && tip != nil && !retainedNode(c.w, tip, parent) {
+					return // attaches to a side branch whose fork point lies below the retained depth
 				}
 				if parent == nil && twin.Tree.Get(hdr.RH(u.Header.PrevBlock)) == nil && ts.Class == st.Class {
 					return
